@@ -41,14 +41,29 @@ func c19Filters() []string {
 // filters whose parameter is optional: generated with and without it
 var c19Optional = map[string]bool{"yesno": true, "pluralize": true, "floatformat": true, "default": true, "stringformat": false}
 
-// c19Step is one filter of a chain, with or without its argument
+// a second way of writing an argument for some filters: a float literal (three tokens)
+var c19FloatArgs = map[string]c19Arg{
+	"add": {"1.5", 1.5}, "default": {"2.5", 2.5}, "default_if_none": {"0.25", 0.25}, "center": {"5.0", 5.0}, "divisibleby": {"2.0", 2.0}, "floatformat": {"2.0", 2.0},
+}
+
+// c19Step is one filter of a chain, with or without its argument; how: 0 = the literal of c19Args,
+// 1 = a context variable holding the same value, 2 = a path into a context map, 3 = a float literal
 type c19Step struct {
 	f      string
 	hasArg bool
+	how    int
 }
 
 func (s c19Step) lit() string {
 	if a, ok := c19Args[s.f]; ok && s.hasArg {
+		switch s.how {
+		case 1:
+			return ":a_" + s.f
+		case 2:
+			return ":args." + s.f
+		case 3:
+			return ":" + c19FloatArgs[s.f].lit
+		}
 		return ":" + a.lit
 	}
 	return ""
@@ -56,9 +71,24 @@ func (s c19Step) lit() string {
 
 func (s c19Step) val() *Value {
 	if a, ok := c19Args[s.f]; ok && s.hasArg {
+		if s.how == 3 {
+			return AsValue(c19FloatArgs[s.f].val)
+		}
 		return AsValue(a.val)
 	}
 	return AsValue(nil)
+}
+
+// c19Ctx: v plus the filter arguments as variables (a_<filter>) and as entries of a map (args.<filter>)
+func c19Ctx(v any) Context {
+	c := Context{"v": v}
+	m := map[string]any{}
+	for f, a := range c19Args {
+		c["a_"+f] = a.val
+		m[f] = a.val
+	}
+	c["args"] = m
+	return c
 }
 
 // chain of n filters drawn from the registry
@@ -72,6 +102,14 @@ func c19Chain(n int) []c19Step {
 		c[i] = c19Step{f: fs[verifChoice(len(fs))], hasArg: true}
 		if c19Optional[c[i].f] && verifChoice(2) == 1 {
 			c[i].hasArg = false
+		}
+		if _, has := c19Args[c[i].f]; has && c[i].hasArg && i == 0 {
+			// the first filter of the chain gets its argument written in every way
+			if _, fl := c19FloatArgs[c[i].f]; fl {
+				c[i].how = verifChoice(4)
+			} else {
+				c[i].how = verifChoice(3)
+			}
 		}
 	}
 	return c
@@ -104,7 +142,7 @@ func HarnessC19Chain() {
 	verifObserve("v", v)
 	verifObserve("expr", c19Expr("v", chain))
 	want, wok := c19Compose(chain, AsValue(v))
-	out, ok := render("{% autoescape off %}{{ "+c19Expr("v", chain)+" }}{% endautoescape %}", Context{"v": v})
+	out, ok := render("{% autoescape off %}{{ "+c19Expr("v", chain)+" }}{% endautoescape %}", c19Ctx(v))
 	verifAssert(ok == wok, "inline chain fails iff the ApplyFilter composition fails")
 	if ok {
 		verifObserve("out", out)
@@ -118,7 +156,7 @@ func HarnessC19Chain() {
 			}
 			fsrc += st.f + st.lit()
 		}
-		out2, ok2 := render("{% autoescape off %}{% filter "+fsrc+" %}{{ v }}{% endfilter %}{% endautoescape %}", Context{"v": v})
+		out2, ok2 := render("{% autoescape off %}{% filter "+fsrc+" %}{{ v }}{% endfilter %}{% endautoescape %}", c19Ctx(v))
 		verifAssert(ok2 == wok, "filter tag fails iff the composition fails")
 		if ok2 {
 			verifAssert(out2 == want, "filter tag differs from applying the chain to the rendered body")
@@ -196,7 +234,9 @@ func HarnessC19Positions() {
 		exp = ""
 		cv.Iterate(func(idx, count int, key, value *Value) bool { exp += "[" + key.String() + "]"; return true }, func() {})
 	}
-	out, ok := render("{% autoescape off %}"+src+"{% endautoescape %}", Context{"v": v, "w": w, "items": []string{"i0", "i1", "i2", "i3", "i4", "i5", "i6", "i7", "i8"}})
+	pctx := c19Ctx(v)
+	pctx["w"], pctx["items"] = w, []string{"i0", "i1", "i2", "i3", "i4", "i5", "i6", "i7", "i8"}
+	out, ok := render("{% autoescape off %}"+src+"{% endautoescape %}", pctx)
 	verifAssert(ok, "chain at this position must render")
 	verifObserve("out", out)
 	verifAssert(out == exp, "filter chain at this expression position differs from the ApplyFilter composition")
